@@ -3,6 +3,7 @@
 //!   pv-replay replay <harness> '<input>'
 //! Last stdout line is a JSON object:
 //!   {"harness":..,"cases":N,"distinct_nontrivial":M,"bound":"..","failures":[{"fn":..,"input":..,"expected":..,"got":..,"class":..}]}
+mod clpz;
 mod fd;
 mod util;
 
@@ -30,6 +31,8 @@ fn main() {
     match (args[1].as_str(), args[2].as_str()) {
         ("search", "fd") => fd::search(&tier, only.as_deref()),
         ("replay", "fd") => fd::replay(&args[3]),
+        ("search", "clpz") => clpz::search(&tier, only.as_deref()),
+        ("replay", "clpz") => clpz::replay(&args[3]),
         _ => {
             println!("{{\"error\":\"unknown harness\"}}");
             std::process::exit(2);
